@@ -158,6 +158,8 @@ pub enum Act {
     Sync { dst: usize, src: usize },
     /// deliver the single pool update `i` to `dst`, whatever it depends on (creates gaps)
     Deliver { dst: usize, i: usize },
+    /// forced garbage collection on replica `r` (`txn.gc(None)`)
+    Gc { r: usize },
 }
 
 pub struct World {
@@ -214,6 +216,15 @@ impl World {
                     });
                     self.reps[*r].known.insert(idx);
                 }
+                Ok(())
+            }
+            Act::Gc { r } => {
+                let rep = &self.reps[*r];
+                {
+                    let mut txn = rep.doc.transact_mut();
+                    txn.gc(None);
+                }
+                rep.capture.borrow_mut().clear();
                 Ok(())
             }
             Act::Sync { .. } | Act::Deliver { .. } => {
